@@ -119,7 +119,11 @@ def prepare_sources(spec, scratch):
         if w:
             src = open(path).read()
             woven, info = weaver.weave(src, w)
-            out = os.path.join(scratch.dir, "%s__%s" % (spec["module"], os.path.basename(s["path"])))
+            bn = os.path.basename(s["path"])
+            if sum(1 for t in spec["sources"] if os.path.basename(t["path"]) == bn) > 1:
+                # two sources of one module with the same file name (pair0/pair.c, pair1/pair.c)
+                bn = s["path"].replace("/", "_")
+            out = os.path.join(scratch.dir, "%s__%s" % (spec["module"], bn))
             open(out, "w").write(woven)
             scratch.weave_info[key] = info
             item = (out, os.path.dirname(path), s)
